@@ -31,14 +31,14 @@ const (
 )
 
 type mitem struct {
-	k     kind
-	u     uint64
-	i     int64
-	b     []byte
-	kids  []*mitem  // array elements
-	keys  []*mitem  // map keys (caller order)
-	vals  [][]*mitem // map values: each a sequence of exactly one item
-	flag  bool
+	k    kind
+	u    uint64
+	i    int64
+	b    []byte
+	kids []*mitem   // array elements
+	keys []*mitem   // map keys (caller order)
+	vals [][]*mitem // map values: each a sequence of exactly one item
+	flag bool
 }
 
 // emit drives the repository's encoder.
@@ -151,7 +151,7 @@ func same(it *rcbor.Item, m *mitem, raw []byte) string {
 			if it.Major != 0 || it.Arg != uint64(m.i) {
 				return fmt.Sprintf("int %d decoded as major %d arg %d", m.i, it.Major, it.Arg)
 			}
-		} else if it.Major != 1 || it.Arg != uint64(-(m.i + 1)) {
+		} else if it.Major != 1 || it.Arg != uint64(-(m.i+1)) {
 			return fmt.Sprintf("int %d decoded as major %d arg %d", m.i, it.Major, it.Arg)
 		}
 	case kBytes:
